@@ -39,6 +39,7 @@ class Contract:
     # checks it on the real function; obligations that used one are "discharged modulo bounded"
     assumed_ensures: list[tuple[str, str]] = field(default_factory=list)
     defaults: dict[str, Any] = field(default_factory=dict)  # default values of optional parameters
+    pure: bool = False  # the result is a function of the arguments (same arguments, same result)
     wf: bool = True  # record parameters are assumed (and required at call sites) to be well-formed
 
     def __post_init__(self):
@@ -419,7 +420,7 @@ def apply_contract(ip: Interp, c, recv, args, kwargs, n):
                     p.assume(spec_eval_env(ip, clause, env))
             raise Raised(exc)
     havoc_paths(ip, env, c.modifies, short)
-    result = mk_symbolic(ip, c.ret, f'{short}.result')
+    result = _pure_result(ip, c, env, short) if c.pure else mk_symbolic(ip, c.ret, f'{short}.result')
     env['retval' if 'result' in c.sig else 'result'] = result
     for _tag, clause in c.clauses():
         if _assign_form(ip, clause, env, c.modifies):
@@ -431,6 +432,30 @@ def apply_contract(ip: Interp, c, recv, args, kwargs, n):
     if not p.feasible(z3.BoolVal(True)):
         raise PathEnd()
     return result
+
+
+def _pure_result(ip: Interp, c: Contract, env: dict, short: str):
+    """result of a pure callee: an uninterpreted function of its (term-valued) arguments"""
+    zargs = []
+    for name in c.sig:
+        v = env[name]
+        if isinstance(v, (Opaque, FuncVal)):
+            v = v.ident
+        if isinstance(v, ZRec):
+            v = v.get()
+        v = ip.z(v)
+        if not z3.is_expr(v):
+            return mk_symbolic(ip, c.ret, f'{short}.result')
+        zargs.append(v)
+    ret = c.ret.strip()
+    if ret.startswith(('opaque:', 'func:')):
+        f = ip.w.uf(f'pure_{short}', *[a.sort() for a in zargs], z3.IntSort())
+        t = f(*zargs)
+        return Opaque(ret.split(':', 1)[1], t) if ret.startswith('opaque:') else FuncVal(ret.split(':', 1)[1], t)
+    srt = S.sort_of(ret)
+    if srt is None:
+        return mk_symbolic(ip, c.ret, f'{short}.result')
+    return ip.w.uf(f'pure_{short}', *[a.sort() for a in zargs], srt)(*zargs)
 
 
 def _assign_form(ip: Interp, clause: str, env: dict, modifies: list[str]) -> bool:
